@@ -307,33 +307,27 @@ example :
 /-! ## The model is the source (`copy_traits`) -/
 
 open TraitsVerif.Model.PyP TraitsVerif.Lemmas.PersistSource in
-/-- **The loop of `copy_traits` is the source.**  `Generated/PersistProg.lean` holds the source text of
-`HasTraits.__getstate__`, `__reduce_ex__`, `__setstate__`, `copy_traits`, `clone_traits`, `__deepcopy__` (whole
-functions) and of the container `__getstate__` / `__setstate__` / `__deepcopy__`, translated on every run into the
-deep-embedded language `Model/PyPersist`.  For every leaf validator, every object without deferred (property /
-delegate) traits, every allocation state, every `copy` argument, `memo` given or not, and both ways of selecting
-the traits (`traits=None`: the copyable names, `all = false`; `traits="all"`: every name, `all = true`): running
-the interpreter over the main `for name in traits:` loop of the TRANSLATED `copy_traits` - `try:` / bare `except:`,
-the deferral test, the Event test, `getattr(other, name)`, the four-way `copy_type` chain with its `memo` split,
-`setattr(self, name, value)` - on a fresh instance of the same class gives exactly `cloneL`: the same new slots,
-the same source slots (defaults materialised by the reads), the same allocator, and never leaves the loop early. -/
-theorem C14_copy_is_source (E : Env) (oS oD : Nat) (arg : Option CopyMode) (all : Bool) (mv : Val)
-    (hmv : mv = .none ∨ mv = .memo) (memo : List (String × Val)) (src : List Slot)
-    (hnd : ∀ sl ∈ src, sl.decl.kind ≠ .property) (n : Nat) (tv : Val) (un : List String)
-    (x10 x11 x12 x13 x14 : Option Val) :
-    let p : Decl → Bool := if all then (fun _ => true) else Decl.copyable
-    let r := loopB E oS oD mainBody 10 p memo src (src.map fun sl => ⟨sl.decl, none⟩) n
-      (ctFrame tv mv arg un x10 x11 x12 x13 x14)
-    (forLoops copyTraitsFn.body).length = 2 ∧
-    r.1 = .next ∧ r.2.1 = (cloneL E oS oD arg all n src).2.1 ∧ r.2.2.1 = (cloneL E oS oD arg all n src).1 ∧
-      r.2.2.2.1 = (cloneL E oS oD arg all n src).2.2 := by
-  intro p r
-  have hp : ∀ d : Decl, (d.copyable || (all && d.kind != .event)) = (p d && d.kind != .event) := by
-    intro d
-    cases all <;> cases hk : d.kind <;> cases ht : d.transient <;> simp [p, Decl.copyable, hk, ht]
-  obtain ⟨_, _, hl⟩ := mainBody_unfold
-  obtain ⟨h1, h2, h3, h4, _⟩ := loop_spec E oS oD arg tv mv hmv all p hp memo src hnd n _ ⟨un, x10, x11, x12, x13, x14, rfl⟩
-  exact ⟨hl, h1, h2, h3, h4⟩
+/-- **`copy_traits` is the source** (whole function).  `Generated/PersistProg.lean` holds the source text of
+`HasTraits.__getstate__`, `__reduce_ex__`, `__setstate__`, `copy_traits`, `clone_traits`, `__deepcopy__` and of the
+container `__getstate__` / `__setstate__` / `__deepcopy__`, translated on every run into the deep-embedded language
+`Model/PyPersist`.  For every leaf validator, every object without deferred (property / delegate) traits, every
+allocation state, every `copy` argument, `memo` given or not, and both ways of selecting the traits (`traits=None`:
+the copyable names, `all = false`; `traits="all"`: every name, `all = true`): interpreting
+`new.copy_traits(other, traits, memo, copy)` on a fresh instance of the same class - the selection of the names, the
+`for name in traits:` loop with its `try:` / bare `except:`, the deferral test, the Event test, `getattr(other,
+name)`, the four-way `copy_type` chain with its `memo` split, `setattr(self, name, value)`, the (empty) loop over
+the deferred names - gives exactly `cloneL` (the new slots, the source slots with defaults materialised, the
+allocator), RETURNS exactly `cloneUnassignable` (the names whose copy or assignment raised - an Event that is merely
+skipped is not among them), and records `traits_to_copy = "all"` in a given memo exactly when asked for all. -/
+theorem C14_copy_is_source (E : Env) (oS oD n : Nat) (src : List Slot) (arg : Option CopyMode) (all : Bool)
+    (mv : Val) (hmv : mv = .none ∨ mv = .memo) (hnd : ∀ sl ∈ src, sl.decl.kind ≠ .property) :
+    ∃ ts, runMethod E oS oD noHandler "copy_traits" (.obj true) [.obj false, traitsArg all, mv, argVal arg] [] []
+        ⟨src, src.map fun sl => ⟨sl.decl, none⟩, n, [], [], []⟩ =
+          some (.ok (.nameList (cloneUnassignable E oS oD arg all n src)), ts) ∧
+      ts.dst = (cloneL E oS oD arg all n src).1 ∧ ts.src = (cloneL E oS oD arg all n src).2.1 ∧
+      ts.n = (cloneL E oS oD arg all n src).2.2 ∧
+      memoGet ts.memo "traits_to_copy" = (if all && mv.isMemo then some (Val.str "all") else none) :=
+  copyTraits_is_source E oS oD n src arg all mv hmv hnd
 
 /-- The hypotheses of `C14_copy_is_source` are satisfiable on a non-trivial object - `x = Any()` holding a plain
 list, no deferred trait - and the right-hand side is not trivial there: under `copy='deep'` the new object's value
@@ -343,8 +337,12 @@ example :
     let src : List Slot := [⟨d, some (.node .lst 0 .plain [] [])⟩]
     (∀ sl ∈ src, sl.decl.kind ≠ .property) ∧
       (cloneL E0 1 2 (some .deep) false 1 src).1.flatMap slotIds = [1] ∧
-      (cloneL E0 1 2 (some .deep) false 1 src).2.1.flatMap slotIds = [0] := by
-  refine ⟨?_, by decide, by decide⟩
+      (cloneL E0 1 2 (some .deep) false 1 src).2.1.flatMap slotIds = [0] ∧
+      cloneUnassignable E0 1 2 (some .deep) false 1 src = [] ∧
+      -- `n = List(Int)` holding a list with a string (put there behind the trait's back): assignment to the copy raises
+      cloneUnassignable E0 1 2 none false 1
+        [⟨{ name := "n", shape := .cont .lst 0 (.leafT 0) 0 9 }, some (.node .lst 0 .plain [] [.leaf (.str "x")])⟩] = ["n"] := by
+  refine ⟨?_, by decide, by decide, by decide, by decide⟩
   intro sl h
   simp only [List.mem_singleton] at h
   subst h
@@ -401,6 +399,55 @@ theorem C14_clone_is_source (E : Env) (s : Obj) (o' n : Nat) (arg : Option CopyM
       ts.log = (if (s.slots.filter (fun sl => sl.decl.copyable)).length = 0 then cloneLog.eraseIdx 2 else cloneLog) ∧
       memoGet ts.memo "traits_copy_mode" = some (argVal arg) :=
   clone_is_source E s o' n arg hnd
+
+open TraitsVerif.Model.PyP TraitsVerif.Lemmas.PersistSource TraitsVerif.Generated.PersistProg in
+/-- **`__deepcopy__` is the source**, of objects and of containers.
+(1) `HasTraits.__deepcopy__(memo)`, interpreted with the translated `clone_traits` and `copy_traits` called through
+it: called by `copy.deepcopy` itself (empty memo, `outer = none`) it is `cloneTraits … (some .deep)` = `deepcopyObj`;
+called on an object reached while `clone_traits(copy=a)` copies a value deeply (the memo holds the outer mode,
+`outer = some a`) it is `cloneTraits … a` - the `nestedArg` of the model.
+(2) `Trait{List,Dict,Set}Object.__deepcopy__` is `Cls(self.trait, None, self.name, <copy.deepcopy(x, memo) of every
+item>)`: a new object without owner and with the same trait - `ctorBinding (bindingTrait b)` - and
+(3) that is the binding `deepcopyV` gives the copy of every container-object node, over the deep copies of its items. -/
+theorem C14_deepcopy_is_source :
+    (∀ (E : Env) (s : Obj) (o' n : Nat) (outer : Option (Option CopyMode)),
+      (∀ sl ∈ s.slots, sl.decl.kind ≠ .property) →
+      ∃ ts, runFn E s.oid o' (progHandler E s.oid o' hasTraitsProg (progHandler E s.oid o' hasTraitsProg noHandler))
+          deepcopyFn (.obj false) [.memo] [] [] ⟨s.slots, [], n, [], dcMemo outer, []⟩ = some (.ok (.obj true), ts) ∧
+        ts.dst = (cloneTraits E s o' (dcArg outer) n).copy.slots ∧
+        ts.src = (cloneTraits E s o' (dcArg outer) n).orig.slots ∧
+        ts.n = (cloneTraits E s o' (dcArg outer) n).next) ∧
+    (∀ E s o' n, cloneTraits E s o' (dcArg none) n = deepcopyObj E s o' n) ∧
+    (∀ a, dcArg (some a) = nestedArg (.clone a)) ∧
+    (∀ (k : Kind) (b : Binding), runDeepcopy (progOf k) k b = some (ctorBinding (bindingTrait b))) ∧
+    (∀ (n : Nat) (k : Kind) (i : Nat) (b : Binding) (keys : List Leaf) (kids : List CVal), b ≠ .plain →
+      deepcopyV n (.node k i b keys kids) =
+        match deepcopyL (n + 1) kids with
+        | .error e => .error e
+        | .ok (kids', n') =>
+          .ok (.node k n (ctorBinding (bindingTrait b)) (keys.map (Leaf.copiedAt n)) kids', n')) :=
+  ⟨fun E s o' n outer hnd => deepcopy_is_source E s o' n outer hnd, fun _ _ _ _ => rfl, fun _ => rfl,
+   container_deepcopy, fun n k i b keys kids hb => deepcopyV_node n k i b hb keys kids⟩
+
+open TraitsVerif.Model.PyP TraitsVerif.Lemmas.PersistSource in
+/-- **The container `__getstate__` / `__setstate__` are the source.**  For each of `TraitListObject`,
+`TraitDictObject`, `TraitSetObject`, interpreting the translated methods on the attribute dictionary:
+`__getstate__` returns the instance dictionary minus `object` and `trait` (everything else - name, validators - kept);
+`__setstate__` of such a state hands `self.__dict__.update` a dictionary in which `object` is `lambda: None`, `trait`
+is None, `notifiers` is `[self.notifier]`, the validator attributes are the state's and `name` is the state's (`""`
+when the state has none) - for the list the `object is not None` arm is not taken.  That is the binding
+`Binding.afterSetstate` / `Binding.afterCopy` give every container object: detached. -/
+theorem C14_container_state_is_source :
+    (∀ k : Kind,
+      okDict (runRec (progOf k) "__getstate__" containerDict) = some stateDict ∧
+      (∃ r, okSelf (runRec (progOf k) "__setstate__" stateDict) = some r ∧ restoredOK r = true ∧
+        recGet r "name" = some .kept) ∧
+      (∃ r, okSelf (runRec (progOf k) "__setstate__" (recDel stateDict "name")) = some r ∧ restoredOK r = true ∧
+        recGet r "name" = some .emptyStr)) ∧
+    (∀ b : Binding, b ≠ .plain → b.afterSetstate = .detached none ∧ b.afterCopy = .detached b.rule) := by
+  refine ⟨container_state, ?_⟩
+  intro b hb
+  cases b <;> simp [Binding.afterSetstate, Binding.afterCopy] at hb ⊢
 
 /-- The two logs are the call sequences `copychains` reads (so `C14_restored_before_inited` speaks of the same
 runs), and the no-copyable-trait variant only lacks `copy_traits`. -/
